@@ -190,6 +190,34 @@ func c20(c *Ctx) {
 					k.RequirePreauth = true
 					addErr("client.Login:wrong-password", cl2.Login())
 					cl2.Destroy()
+					// replies the client refuses AFTER it has the reply in hand (validation errors format what they compare):
+					// a canonicalised client name, another realm, a wrong nonce, a wrong server name
+					for ti, tf := range []func(rep *messages.KDCRepFields, enc *messages.EncKDCRepPart){
+						func(rep *messages.KDCRepFields, enc *messages.EncKDCRepPart) {
+							rep.CName = types.PrincipalName{NameType: 1, NameString: []string{"Test.User1"}}
+						},
+						func(rep *messages.KDCRepFields, enc *messages.EncKDCRepPart) { rep.CRealm = "OTHER.REALM" },
+						func(rep *messages.KDCRepFields, enc *messages.EncKDCRepPart) { enc.Nonce++ },
+						func(rep *messages.KDCRepFields, enc *messages.EncKDCRepPart) {
+							enc.SName = types.PrincipalName{NameType: 2, NameString: []string{"krbtgt", "OTHER.REALM"}}
+						},
+					} {
+						tf := tf
+						k.Tamper = func(kind string, rep *messages.KDCRepFields, enc *messages.EncKDCRepPart, key types.EncryptionKey, usage uint32) (types.EncryptionKey, uint32) {
+							if kind == "AS" {
+								tf(rep, enc)
+							}
+							return key, usage
+						}
+						cl3 := client.NewWithPassword("testuser1", realm, pwMarker, cfg, client.DisablePAFXFAST(true), client.Logger(log.New(&logb, "", 0)))
+						var lerr error
+						guard(func() { lerr = cl3.Login() })
+						addErr(fmt.Sprintf("client.Login:reply-refused-%d", ti), lerr)
+						guard(func() { lerr = cl3.AffirmLogin() })
+						addErr(fmt.Sprintf("client.AffirmLogin:reply-refused-%d", ti), lerr)
+						cl3.Destroy()
+					}
+					k.Tamper = nil
 					cl.Destroy()
 					add("client.Logger", logb.Bytes())
 					k.Close()
